@@ -173,6 +173,7 @@ fn main() {
                 "cov" => cov::drive(seed, n),
                 "curve-float" | "curve-big" | "stroke-float" => drivers::curve_float(fam, seed, n),
                 "dashops" => drivers::dashops(seed, n),
+                "arc-fuzz" => drivers::arc_fuzz(seed, n),
                 "dash-nonpos" => {
                     // dashed strokes whose dash array has a total that is not positive: nothing may be painted
                     let ds = [json!([0]), json!([0, 0]), json!([3, -3]), json!([-2, 1]), json!([0, 0, 0]), json!([-4]), json!([1, -1, 2, -2])];
